@@ -83,56 +83,57 @@ Proof.
 Qed.
 Print Assumptions subsample_table_spec.
 
-(* with replacement: if every vector of the axis has a positive total, every vector is kept, sums
-   to n and is non-zero only where the original was (under the contract of multinomial) *)
+(* with replacement (the method as repaired: vectors without counts are filtered out before the
+   kernel): exactly the vectors with a positive total are kept, each sums to n and is non-zero only
+   where the original was (under the contract of multinomial); no premise on the table beyond its
+   domain.  [lay] / [draws] are the layout and the draws of the filtered table, which is what the
+   kernel is handed. *)
 Theorem with_replacement_spec : forall n a lay draws t,
-  wf t -> nonneg_table t -> 1 <= n -> lay_wf (axis_vecs a t) lay ->
-  Forall (fun v => (0 < zsum v)%Z) (axis_vecs a t) ->
-  multis_ok n (gather_all (axis_vecs a t) lay) draws ->
+  wf t -> nonneg_table t -> 1 <= n ->
+  lay_wf (axis_vecs a (drop_nonpositive a t)) lay ->
+  multis_ok n (gather_all (axis_vecs a (drop_nonpositive a t)) lay) draws ->
   fst (subsample (Z.of_nat n) a false true lay draws t) = t /\
   exists t', snd (subsample (Z.of_nat n) a false true lay draws t) = ROk t' /\ wf t' /\
-    ids a t' = ids a t /\
+    ids a t' = select (map (fun v => (0 <? zsum v)%Z) (axis_vecs a t)) (ids a t) /\
     Forall (fun v => zsum v = Z.of_nat n) (axis_vecs a t') /\
     (forall o s v, cell t' o s = Some v -> (0 <= v)%Z /\ (v <> 0%Z -> cell t o s <> Some 0%Z)) /\
     Forall (fun c => all_zero c = false) (axis_vecs (other a) t') /\
+    (exists m2, ids (other a) t' = select m2 (ids (other a) t)) /\
     (forall x, In x (ids a t') -> md_of a t' x = md_of a t x) /\
     (forall y, In y (ids (other a) t') -> md_of (other a) t' y = md_of (other a) t y) /\
     ttype t' = ttype t.
 Proof.
-  intros n a lay draws t W NN Hn HL HP HD. split; [apply subsample_receiver_unchanged|].
+  intros n a lay draws t W NN Hn HL HD. split; [apply subsample_receiver_unchanged|].
   destruct (subsample_dispatch (Z.of_nat n) a lay draws t (Zle_0_nat n)) as (_ & E & _). rewrite E.
-  exact (subsample_replace_spec n a lay draws t W NN Hn HL HP HD).
+  exact (subsample_replace_spec n a lay draws t W NN Hn HL HD).
 Qed.
 Print Assumptions with_replacement_spec.
 
-(* ... and when some vector of the axis has NO counts the call raises ValueError instead of
-   returning the other vectors resampled (rng.multinomial(n, []) in the kernel): the property's
-   clause "every vector that had a positive total sums to n" fails for such tables *)
-Theorem with_replacement_zero_vector_raises : forall n a lay draws t,
-  wf t -> (0 <= n)%Z -> lay_wf (axis_vecs a t) lay -> (exists v, In v (axis_vecs a t) /\ zsum v = 0%Z) ->
-  snd (subsample n a false true lay draws t) = RErr E_VALUE.
-Proof.
-  intros n a lay draws t W Hn HL Hz. destruct (subsample_dispatch n a lay draws t Hn) as (_ & E & _). rewrite E.
-  apply subsample_replace_raises; assumption.
-Qed.
-Print Assumptions with_replacement_zero_vector_raises.
+(* the machine-checked reason for that pre-filter (finding F21, repaired): handed a table with a
+   vector WITHOUT counts, the kernel path raises ValueError (rng.multinomial(n, []) in the .pyx)
+   instead of resampling the vectors that do have counts *)
+Theorem replace_kernel_needs_prefilter : forall a lay draws t,
+  wf t -> lay_wf (axis_vecs a t) lay -> (exists v, In v (axis_vecs a t) /\ zsum v = 0%Z) ->
+  subsample_replace_core a lay draws t = RErr E_VALUE.
+Proof. exact subsample_replace_core_raises. Qed.
+Print Assumptions replace_kernel_needs_prefilter.
 
 Definition ex_table : table :=
   mkT [10;20;30]%Z [1;2;3]%Z [[10;0;0];[1;1;1];[0;0;0]]%Z (Some [I 1; I 2; I 3]%Z) None 1%Z.
 
-Theorem with_replacement_spec_refuted : exists n a lay draws t,
+Theorem replace_without_prefilter_refuted : exists a lay draws t,
   wf t /\ nonneg_table t /\ lay_ok (axis_vecs a t) lay /\
   (exists v, In v (axis_vecs a t) /\ (0 < zsum v)%Z) /\
-  snd (subsample n a false true lay draws t) = RErr E_VALUE.
+  subsample_replace_core a lay draws t = RErr E_VALUE.
 Proof.
-  exists 2%Z, Obs, (canon_lay (mat ex_table)), [[2;0];[1;1;0]]%Z, ex_table.
+  exists Obs, (canon_lay (mat ex_table)), [[2;0];[1;1;0]]%Z, ex_table.
   split; [apply wfb_wf; vm_compute; reflexivity|].
   split; [repeat constructor; discriminate|].
   split; [apply lay_okb_ok; vm_compute; reflexivity|].
   split; [exists [10;0;0]%Z; split; [left; reflexivity|reflexivity]|].
   vm_compute. reflexivity.
 Qed.
-Print Assumptions with_replacement_spec_refuted.
+Print Assumptions replace_without_prefilter_refuted.
 
 (* by id: min(n, N) ids are kept, those among the first n of the shuffled ids, in table order;
    every retained cell is unchanged; the closing filter drops the other-axis vectors that are
@@ -187,6 +188,17 @@ Qed.
 Example ex_result : exists t', snd (subsample 2 Obs false false (canon_lay (mat ex_table)) [[6;8];[0;2]]%Z ex_table) = ROk t' /\
   oids t' = [10;20]%Z /\ sids t' = [1;3]%Z /\ mat t' = [[2;0];[1;1]]%Z.
 Proof. eexists. vm_compute. repeat split; reflexivity. Qed.
+Example ex_replace : exists t', snd (subsample 2 Obs false true [[0];[0;1;2]] [[2];[1;1;0]]%Z ex_table) = ROk t' /\
+  oids t' = [10;20]%Z /\ sids t' = [1;2]%Z /\ mat t' = [[2;0];[1;1]]%Z /\
+  multis_ok 2 (gather_all (axis_vecs Obs (drop_nonpositive Obs ex_table)) [[0];[0;1;2]]) [[2];[1;1;0]]%Z.
+Proof.
+  eexists. split; [vm_compute; reflexivity|]. split; [reflexivity|]. split; [reflexivity|]. split; [reflexivity|].
+  assert (E : gather_all (axis_vecs Obs (drop_nonpositive Obs ex_table)) [[0];[0;1;2]] = [[10];[1;1;1]]%Z)
+    by (vm_compute; reflexivity).
+  rewrite E. simpl. unfold multi_ok.
+  repeat split; try reflexivity; try (repeat constructor; discriminate);
+    intros [|[|[|k]]] H; simpl in *; try reflexivity; try discriminate.
+Qed.
 Example ex_walk : fst (walk 3 [0;2;0;3;0]%Z [1;2;4]%Z) = [0;1;0;2;0]%Z /\ choice_ok 5 3 [1;2;4]%Z.
 Proof. split; [vm_compute; reflexivity|apply choice_okb_ok; vm_compute; reflexivity]. Qed.
 Example ex_by_id : Permutation (ids Samp ex_table) [2;3;1]%Z /\
